@@ -256,7 +256,7 @@ def uses_feature(env, opt):
             eff = []
             for c in kids:
                 if c.variant == 'JSXText':
-                    if harness_clean(c.fields[0].get('value')):
+                    if harness_clean(c.fields[0].get('value'), env.ctx):
                         eff.append('text')
                 elif c.variant == 'JSXExprContainer':
                     je = c.fields[0].get('expr')
@@ -272,9 +272,15 @@ def uses_feature(env, opt):
     return False
 
 
-def harness_clean(s):
+def harness_clean(s, ctx=None):
+    """does the JSX text survive cleaning? (symbolic text: decided on the path, by the same text rule C02 uses)"""
     from . import textrule
-    return textrule.py_clean(s.py()) != '' if s.is_concrete() else True
+    if s.is_concrete():
+        return textrule.py_clean(s.py()) != ''
+    if ctx is None:
+        return True
+    chars, _ = textrule.sym_clean(ctx, s)
+    return len(chars) > 0
 
 
 def oracle(env):
